@@ -18,6 +18,8 @@ RULES = {
     "C15.R5": "representation: the scale/zero-point transposes of the optimised constructor are undone by the optimised dequantizer, and scale*code + (-zp*scale) == scale*(code - zp)",
     "C15.R6": "conversion back: every transformation the optimised constructor applies to a field has its inverse in qbits_tensor()",
     "C15.R8": "AWQPackedTensor.pack/unpack delegate to the module packer/unpacker selected by the recorded packing with the recorded reorder flag, nothing re-positions the unpacked codes, and every reconstruction inside the class carries (packing, reorder) over unchanged",
+    "C15.R9": "re-wrapping handlers: a QBitsTensor handler that rebuilds `t.__class__(...)` from `op(t._data)` is only registered for ops under which AWQPackedTensor stays packed (its __torch_dispatch__ keeps detach / _to_copy / to); otherwise the optimised constructor formats scale and zero-point a second time",
+    "C15.R10": "the grouping helpers the optimised constructor and dequantizer rely on (ungroup before packing, group after unpacking) are inverse layouts (the rule of C02.R4)",
     "C15.R7": "create() selects the optimised class exactly under the kernel's preconditions; moves across device types and serialization convert back; every subclass overrides qbits_tensor",
 }
 
@@ -81,6 +83,9 @@ def run(chk):
     representation(chk)
     selection(chk)
     wrapper(chk, awq_mi)
+    rewrap_ops(chk, awq_mi)
+    from .c04_layout import group_ungroup
+    group_ungroup(chk, "C15.R10")
     chk.assume("row-major reshape, permute, bit operators on int32/int16 values that fit (codes < 16)", "the CUDA kernels themselves are not analysed")
 
 
@@ -232,7 +237,11 @@ def representation(chk):
             chk.require("C15.R5", site_d, lhs == poly.parse("S * C - S * zp"), "scale*code + (-zp*scale) == scale*(code - zp) as polynomials", "AWQBitsDequantizer.forward", "affine identity", "-")
         else:
             missing_group = got is not None and not any("C" in mono for mono in got) and any("unpack()" in m for mono in got for m in mono)
-            if missing_group:
+            divides = val is not None and any(isinstance(n_, ast.BinOp) and isinstance(n_.op, (ast.Div, ast.FloorDiv)) and "_scale" in U(n_.right) for n_ in ast.walk(val))
+            if divides:
+                chk.bad("C15.R5", site_d, "AWQBitsDequantizer.forward", "dequantizer divides by the scale", f"the optimised dequantizer divides by the stored scale (`{U(val)[:110]}`): a group whose scale is zero (an all-zero group) gives 0/0 = NaN, the standard dequantizer gives zeros",
+                        "an int4 weight with an all-zero (pruned) group of 128 values held in the optimised representation: NaN where the standard representation dequantizes to 0")
+            elif missing_group:
                 chk.bad("C15.R5", site_d, "AWQBitsDequantizer.forward", "codes regrouped", f"dequantizer multiplies the scale by un-grouped codes: {poly.show(got)[:120]}", "every optimised tensor: scales broadcast against un-grouped codes")
             else:
                 chk.unknown("C15.R5", site_d, f"AWQBitsDequantizer.forward: dequantized term not in the recognised vocabulary: {poly.show(got)[:160] if got else None}")
@@ -440,3 +449,50 @@ def wrapper(chk, awq_mi):
                 n += 1
                 chk.require("C15.R8", f"{awq_mi.rel}:{c.lineno}", src is not None and ro == f"{src}._reorder", f"{m.name}: rebuilt with packing=`{pk}`, reorder=`{ro}`", f"AWQPackedTensor.{m.name}", "reconstruction carries flags", "a detached / moved packed tensor is unpacked with another packing or reorder flag")
     chk.floor("C15.R8", n, 1, "reconstruction sites")
+
+
+def rewrap_ops(chk, awq_mi):
+    """C15.R9: ops whose handler re-wraps with the operand's own class must keep the AWQ payload packed."""
+    from ..registries import handlers
+    repo = chk.repo
+    ci = repo.cls("AWQPackedTensor")
+    disp = ci.own("__torch_dispatch__")
+    if disp is None:
+        chk.unknown("C15.R9", f"{awq_mi.rel}:{ci.node.lineno}", "AWQPackedTensor.__torch_dispatch__ not found")
+        return
+    keep = set()
+    for p in paths_of(disp):
+        # a path keeps the payload packed when it returns something else than the generic fall-through `op(*unpacked args, **kwargs)`
+        # (the re-wrapping itself may sit in a helper or a private method)
+        if p.end[0] != "return" or p.end[1] is None or U(p.end[1]).startswith("op(*"):
+            continue
+        for c, tr, _ in p.conds:
+            if not tr:
+                continue
+            for n in ast.walk(c):
+                if isinstance(n, ast.Compare) and len(n.ops) == 1 and U(n.left) in ("op.overloadpacket", "op._overloadpacket"):
+                    rhs = n.comparators[0]
+                    elts = rhs.elts if isinstance(rhs, (ast.Tuple, ast.List, ast.Set)) else [rhs]
+                    if isinstance(n.ops[0], (ast.Is, ast.Eq, ast.In)):
+                        for e in elts:
+                            t = U(e)
+                            if t.startswith("torch.ops.aten."):
+                                keep.add("aten." + t.split(".")[-1])
+    chk.require("C15.R9", f"{awq_mi.rel}:{disp.lineno}", {"aten.detach", "aten._to_copy"} <= keep, f"AWQPackedTensor stays packed under {sorted(keep)}", "AWQPackedTensor.__torch_dispatch__", "packed under detach/_to_copy", "Parameter() / .to() of an optimised weight: the payload is unpacked and the constructor formats it again")
+    n = 0
+    for h in handlers(repo)["qbits"]:
+        t = positional_params(h.fn)[1]
+        for p in paths_of(h.fn):
+            if p.end[0] != "return" or not isinstance(p.end[1], ast.Call):
+                continue
+            e = p.end[1]
+            if U(e.func) not in (f"{t}.__class__", f"type({t})"):
+                continue
+            n += 1
+            init = repo.method(repo.cls("QBitsTensor"), "__init__")[1]
+            f = bind_call(init, e, skip_first=1)
+            raw_payload = f is not None and U(f["data"]).startswith("op(") and f"{t}._data" in U(f["data"])
+            bad_ops = sorted(o for o in h.ops if o not in keep)
+            chk.require("C15.R9", f"{h.mi.rel}:{p.end[2]}", not (raw_payload and bad_ops), f"{h.name} rebuilds {U(e.func)}(...) from op({t}._data) for {h.ops}; ops under which the AWQ payload is not kept packed: {bad_ops}", h.name, f"rewrap under {bad_ops}",
+                        f"{bad_ops[0].split('.')[-1] if bad_ops else 'op'}() of an optimised (AWQ) weight: the inner payload comes back unpacked, so AWQBitsTensor.__init__ transposes the scales and negates/scales the zero-points a second time")
+    chk.floor("C15.R9", n, 1, "re-wrapping QBits handlers")
